@@ -113,7 +113,7 @@ def run_stream(pid, name, cases, model_ok, level, oracle=None, desc="", nontrivi
                     okops += 1
                 else:
                     errcount[st[0]] = errcount.get(st[0], 0) + 1
-        if mod is not None:
+        if mod is not None and not c.meta.get("twin"):
             b = mod.get(c.id)
             if b is None:
                 res["mismatch"].append({"input": c.id, "impl": "", "model": "missing", "case": c.to_text()})
